@@ -137,6 +137,44 @@ pub fn run(thorough: bool, seed: u64, driver: &str, rep: &mut Report) {
     let mut rng = Rng::new(seed);
     let mut reqs: Vec<String> = vec![];
     let mut pend: Vec<Option<Pend>> = vec![];
+    // ---- numeric corners and annotated trees (contract oracles on the real binary only; the arena model carries exact integers):
+    // NaN / infinite lengths and thresholds for collapse ("only branches SHORTER than the threshold become zero": NaN is not shorter
+    // than anything, nothing is shorter than NaN), bracket comments through every transform with and without -o ----
+    {
+        let texts = ["((A:0.5,B:NaN)X:0.3,C:0.01,D:2)R;", "((A:inf,B:-inf)X:0.3,C:-0.0,D:1e-300)R;", "((A:0.5[&&NHX:S=a],B:0.25[c b])X:0.3[x],C:0.01,D:2[(;)])R[root];", "(A:NaN,B:NaN,C:NaN);"];
+        for text in texts {
+            let file = tmp(&dir, &mut k, text);
+            let Some(t) = rose_of_text(text) else { continue };
+            let ctx0 = format!("tree file: {text}");
+            rep.case(&ctx0, true);
+            for thr_s in ["0.1", "NaN", "inf", "0", "1e-310"] {
+                let thr: f64 = thr_s.parse().unwrap();
+                for excl in [false, true] {
+                    let mut args = vec!["collapse", file.as_str(), thr_s];
+                    if excl { args.push("-e"); }
+                    let r = run_cli(&args);
+                    rep.count("runs:collapse-numeric-corners");
+                    let ctx = format!("{ctx0}\nphylotree collapse FILE {thr_s}{}", if excl { " -e" } else { "" });
+                    let mut want = t.clone();
+                    want.for_each_mut(&mut |x, root, _| {
+                        if !root && !(excl && x.kids.is_empty()) {
+                            if let Some(l) = x.len { if l < thr { x.len = Some(0.0); } }
+                        }
+                    }, true, 0);
+                    match if r.code == Some(0) { rose_of_text(&r.stdout) } else { None } {
+                        None => rep.oracle("collapse", "numeric-corner:error-exit-or-unparseable", &ctx, &format!("exit {:?} {}", r.code, r.stdout)),
+                        Some(g) => if g.canon() != want.canon() { rep.oracle("collapse", "numeric-corner:not-only-shorter-branches-zeroed", &ctx, &format!("{}expected {}", r.stdout, want.newick())); },
+                    }
+                    check_output_option("collapse", &args, &r, &format!("{dir}/oc{k}.nwk"), true, &ctx, rep);
+                }
+            }
+            let r = run_cli(&["rescale", "2", &file]);
+            check_output_option("rescale", &["rescale", "2", &file], &r, &format!("{dir}/or{k}.nwk"), true, &format!("{ctx0}\nphylotree rescale 2 FILE"), rep);
+            let r = run_cli(&["remove", &file, "A"]);
+            check_output_option("remove", &["remove", &file, "A"], &r, &format!("{dir}/om{k}.nwk"), true, &format!("{ctx0}\nphylotree remove FILE A"), rep);
+            let _ = std::fs::remove_file(&file);
+        }
+    }
     let n_trees = if thorough { 600 } else { 60 };
     for ti in 0..n_trees {
         let size = rng.range(2, 30);
